@@ -168,6 +168,10 @@ def load_json(path, default):
 def run_check(prop, tier, seed):
     t0 = time.time()
     cs = load_property(prop)
+    # contracts marked defs={'tier': 'thorough'} (many-path proofs) are verified by the thorough tier only; the quick tier
+    # lists them in the evidence as deferred
+    deferred = [c.name for c in cs if tier == 'quick' and c.defs.get('tier') == 'thorough']
+    cs = [c for c in cs if c.name not in deferred]
     for c in cs:
         CONTRACTS[c.name] = c
     for cl in spec.REGISTRY.values():
@@ -414,7 +418,7 @@ def run_check(prop, tier, seed):
             'undecided': undecided,
             'canaries': canary_records,
             'samples': samples,
-            'unverified': contracts.GAPS.get(prop, []),
+            'unverified': contracts.GAPS.get(prop, []) + (['deferred to the thorough tier (proved there, not in this run): ' + '; '.join(deferred)] if deferred else []),
             'solver_seconds': round(sum(f['solver_seconds'] for f in fn_records), 2),
             'known_findings_excluded': [k['what'] for k in known_here],
             'bounded_native_samples': {'note': 'bounded stand-in / sanity tier, NOT counted in obligations', 'cases': samp_total, 'held': samp_checked, 'per_contract': samp_records},
